@@ -59,3 +59,25 @@ Record rcase := mkR { r_pf : Z; r_f : Z; r_lower : bool; r_real : nat }.
 Definition rcase_ok (c : rcase) : bool :=
   Nat.eqb (r_real c) (if require_raises (r_pf c) (r_f c) (r_lower c) then (if r_lower c then 2 else 1) else 0)%nat.
 Definition rmismatches (l : list rcase) : list nat := bad_indices rcase_ok l.
+
+(* Strengthening round 3 — one call of a version-gated built-in with ONE combination of its optional arguments:
+   m_uses   = the format-dependent features this combination makes the output use (specification side),
+   m_active = labels of the regenerated gates whose reach condition holds for this combination (translator side),
+   outcome as in fcase (2 = another JMC diagnostic; whether that is legitimate is judged per combination by the harness).
+   Compiled  => no active gate raises, and on a versioned table format every used feature is expressible;
+   version diagnostic => some active gate raises. *)
+Record mcase := mkM { m_uses : list feature; m_active : list string; m_pf : Z; m_in_table : bool; m_outcome : nat }.
+Definition active_raise (gs : list gate) (c : mcase) : bool :=
+  existsb (fun g => in_strs (g_label g) (m_active c) && require_raises (m_pf c) (g_thr g) (g_lower g)) gs.
+Definition uses_expressible (c : mcase) : bool :=
+  (m_pf c =? UNVERSIONED) || negb (m_in_table c) || forallb (fun f => expressible f (m_pf c)) (m_uses c).
+Definition mcase_ok (gs : list gate) (c : mcase) : bool :=
+  match m_outcome c with
+  | O => negb (active_raise gs c) && uses_expressible c
+  | S O => active_raise gs c
+  | _ => true
+  end.
+Definition mmismatches (gs : list gate) (l : list mcase) : list nat := bad_indices (mcase_ok gs) l.
+Definition mcase_ok_nogates (c : mcase) : bool :=
+  match m_outcome c with O => uses_expressible c | _ => true end.
+Definition mmismatches_nogates (l : list mcase) : list nat := bad_indices mcase_ok_nogates l.
